@@ -76,7 +76,10 @@ def _settings(hi, ci, ei, xi, ki):
     return s
 
 
-def settings_case(settings, top_extra=False):
+PASSWORDS = [b'pw', b'', b'\xff' * 70]
+
+
+def settings_case(settings, top_extra=False, password=b'pw'):
     """init(settings): either rejected with the backend untouched, or a fresh process can unlock, back up and restore."""
     if top_extra:
         settings = dict(settings, compression={'name': 'zstd'})
@@ -86,7 +89,7 @@ def settings_case(settings, top_extra=False):
     shown = repr(settings)[:200]
     try:
         with rt.silence():
-            res = rt.MiniLoop().run_until_complete(repo.init(password=b'pw', settings=copy.deepcopy(settings)))
+            res = rt.MiniLoop().run_until_complete(repo.init(password=password, settings=copy.deepcopy(settings)))
     except Exception as e:
         if be.objs:
             return False, f'init rejected {shown} with {e!r} but wrote {sorted(be.objs)}'
@@ -99,10 +102,10 @@ def settings_case(settings, top_extra=False):
             (src / n).write_bytes(b)
         try:
             r2 = Repository(be, concurrent=2, cache_directory=None)
-            rt.MiniLoop().run_until_complete(r2.unlock(password=b'pw', key=res.key))
+            rt.MiniLoop().run_until_complete(r2.unlock(password=password, key=res.key))
             rt.MiniLoop().run_until_complete(r2.snapshot(paths=[src]))
             r3 = Repository(be, concurrent=2, cache_directory=None)
-            rt.MiniLoop().run_until_complete(r3.unlock(password=b'pw', key=res.key))
+            rt.MiniLoop().run_until_complete(r3.unlock(password=password, key=res.key))
             rt.MiniLoop().run_until_complete(r3.restore(path=d / 'out'))
         except Exception as e:
             return False, f'init accepted {shown} but the repository is unusable: {e!r}'
@@ -140,7 +143,8 @@ def e_settings_enc(k: int) -> bool:
     """
     xi, ki, ei, base = digits(k, [18, 13, 4, 2])
     with NoTracing():
-        ok, msg = settings_case(_settings([0, 11][base], [1, 4][base], ei, xi, ki), top_extra=(xi + ki) % 7 == 0 and base == 1)
+        ok, msg = settings_case(_settings([0, 11][base], [1, 4][base], ei, xi, ki), top_extra=(xi + ki) % 7 == 0 and base == 1,
+                                password=PASSWORDS[(xi + ki + ei) % 3])
         tick('e_settings_enc', [xi, ki, ei, base, msg[:10]])
         if not ok:
             _say(msg)
@@ -150,6 +154,11 @@ def e_settings_enc(k: int) -> bool:
 # ----------------------------------------------------------------------------- add-key chains
 AK_KDF = [None, {'name': 'scrypt', 'n': 4, 'r': 1, 'p': 1}, {'name': 'scrypt', 'n': 8, 'r': 2, 'p': 1}, {'name': 'blake2b'}, {'name': 'scrypt', 'n': 3},
           {'name': 'aes_gcm'}, {'name': 'scrypt', 'n': 4, 'r': 1, 'p': 1, 'length': 5}]
+
+
+def _akpw(j):
+    """Password of the j-th added key: the second key has the EMPTY password (accepted by add-key, so it has to work)."""
+    return b'' if j == 2 else b'p%d' % j
 
 
 def addkey_case(steps, cipher_i):
@@ -174,14 +183,14 @@ def addkey_case(steps, cipher_i):
             with rt.silence():
                 if st is None:
                     st = {'encryption': {'kdf': dict(rt.FAST_KDF)}}
-                res = rt.MiniLoop().run_until_complete(issuer.add_key(password=b'p%d' % (j + 1), settings=st, shared=bool(shared)))
+                res = rt.MiniLoop().run_until_complete(issuer.add_key(password=_akpw(j + 1), settings=st, shared=bool(shared)))
         except Exception as e:
             if be.objs != before:
                 return False, f'add_key rejected ({e!r}) but changed the backend'
             continue
         if be.objs != before:
             return False, 'add_key changed the backend'
-        keys.append((res.new_key, b'p%d' % (j + 1)))
+        keys.append((res.new_key, _akpw(j + 1)))
     for i, (key, pw) in enumerate(keys):
         for j2, (_, pw2) in enumerate(keys):
             r = Repository(be, concurrent=2, cache_directory=None)
